@@ -90,3 +90,11 @@ func verifMRTPeerFraming(bgpid, ipaddr netip.Addr, asn uint32, isAS4 bool) bool 
 	}
 	return len(rest) == 0 && q.Type == p.Type
 }
+
+// from C19 "re-serialising a parsed message is a fixpoint": a RIB_GENERIC record carries its family in the record; the
+// parsed record says which one it was (a record that forgets it is written back with AFI 0 / SAFI 0)
+//@ props C19
+//@ func parseRib
+//@   tag C19
+//@   claims at-return
+//@   at-return requires ret0 != nil ==> ret0.Family == family
